@@ -562,6 +562,60 @@ Proof.
 Qed.
 Local Open Scope nat_scope.
 
+(* ---- precision-matrix conversions (np.linalg.inv = oracle finv) ------------------------------------ *)
+Section Prec.
+  Variable finv : list (list R) -> list (list R).
+  Notation rcov_from_prec := (cov_from_prec R finv).
+  Notation rse_from_prec := (se_from_prec R 0%R sqrt finv).
+  Notation rcorr_from_prec := (corr_from_prec R 0%R Rmult Rdiv sqrt ris0 finv).
+  Notation rprec_from_cov := (prec_from_cov R finv).
+  Notation rcov_from_corrse := (cov_from_corrse R 0%R Rplus Rmult).
+  Notation rprec_from_corrse := (prec_from_corrse R 0%R Rplus Rmult finv).
+
+  (* calculate_cov_from_corrse(calculate_corr_from_prec(P), calculate_se_from_prec(P)) = calculate_cov_from_prec(P) *)
+  Lemma cov_from_corrse_of_prec_lemma (P : list (list R)) i j :
+    (forall k, k < length (finv P) -> (0 < rget (finv P) k k)%R) -> i < length (finv P) -> j < length (finv P) ->
+    rget (rcov_from_corrse (rcorr_from_prec P) (rse_from_prec P)) i j = rget (rcov_from_prec P) i j.
+  Proof. intros. unfold cov_from_corrse, corr_from_prec, se_from_prec, cov_from_prec. apply sdcorr_inverse_lemma; assumption. Qed.
+
+  Lemma matrix_ext_R n (A B : list (list R)) : rsq n A -> rsq n B ->
+    (forall a b, a < n -> b < n -> rget A a b = rget B a b) -> A = B.
+  Proof.
+    intros [AL AR] [BL BR] H. apply (nth_ext A B [] []); [lia|]. intros a Ha.
+    assert (La : length (nth a A []) = n) by (apply AR, nth_In; exact Ha).
+    assert (Lb : length (nth a B []) = n) by (apply BR, nth_In; lia).
+    apply (nth_ext _ _ 0%R 0%R); [lia|]. intros b Hb. apply H; lia.
+  Qed.
+
+  Lemma rtab_rsq n f : rsq n (rtab n n f).
+  Proof.
+    split; [apply rtab_length|]. intros row Hr. unfold ftab in Hr. apply in_map_iff in Hr.
+    destruct Hr as [k [<- _]]. rewrite map_length, seq_length. reflexivity.
+  Qed.
+
+  Lemma corr2cov_sq C sd : rsq (length sd) (rcorr2cov C sd).
+  Proof.
+    assert (Hn : length (rmmul (rdiagm sd) C) = length sd) by (rewrite rmmul_length; unfold diagm; apply rtab_length).
+    unfold corr2cov. unfold mmul at 1. rewrite Hn. apply rtab_rsq.
+  Qed.
+
+  (* calculate_prec_from_corrse(calculate_corr_from_cov(S), calculate_se_from_cov(S)) = calculate_prec_from_cov(S) *)
+  Lemma prec_from_corrse_of_cov_lemma (S : list (list R)) : rsq (length S) S ->
+    (forall k, k < length S -> (0 < rget S k k)%R) ->
+    rprec_from_corrse (rcov2corr S) (rse_from_cov S) = rprec_from_cov S.
+  Proof.
+    intros Hsq Hpos. unfold prec_from_corrse, prec_from_cov. f_equal.
+    assert (Hse : length (rse_from_cov S) = length S) by (unfold se_from_cov; rewrite map_length; apply rdiagv_length).
+    apply (matrix_ext_R (length S)); [rewrite <- Hse; apply corr2cov_sq | exact Hsq|].
+    intros a b Ha Hb. apply sdcorr_inverse_lemma; assumption.
+  Qed.
+
+  (* with an inverse that is an involution on the matrices at hand, cov <-> prec are mutually inverse *)
+  Lemma prec_cov_roundtrip_lemma (P : list (list R)) : finv (finv P) = P ->
+    rprec_from_cov (rcov_from_prec P) = P /\ rcov_from_prec (rprec_from_cov P) = P.
+  Proof. intros H. unfold prec_from_cov, cov_from_prec. split; exact H. Qed.
+End Prec.
+
 (* ---- UCP scaling -------------------------------------------------------------------------------- *)
 Lemma rget_tril A i j : i < length A -> j < length A -> rget (rtril A) i j = if j <=? i then rget A i j else 0%R.
 Proof. intros Hi Hj. unfold tril. rewrite rget_rtab by assumption. reflexivity. Qed.
